@@ -50,8 +50,12 @@ type Conn struct {
 
 // Pipe returns two connected ends. With sync, a Write returns only after
 // the peer has consumed the bytes.
-func Pipe(sync bool) (*Conn, *Conn) {
-	ab, ba := &dir{sync: sync}, &dir{sync: sync}
+func Pipe(sync bool) (*Conn, *Conn) { return PipeDirs(sync, sync) }
+
+// PipeDirs is Pipe with the blocking behaviour chosen per direction
+// (A to B, B to A).
+func PipeDirs(syncAB, syncBA bool) (*Conn, *Conn) {
+	ab, ba := &dir{sync: syncAB}, &dir{sync: syncBA}
 	return &Conn{Name: "A", r: ba, w: ab}, &Conn{Name: "B", r: ab, w: ba}
 }
 
@@ -172,6 +176,46 @@ func (c *Conn) ReadFrame() ([]byte, error) {
 		return nil, io.EOF
 	}
 	return nil, io.ErrUnexpectedEOF
+}
+
+// FrameReady reports whether a complete frame can be read without blocking.
+func (c *Conn) FrameReady() bool {
+	d := c.r
+	if len(d.buf) < 4 {
+		return false
+	}
+	n := int(binary.LittleEndian.Uint32(d.buf))
+	return n >= 4 && len(d.buf) >= n
+}
+
+// ReadObj is the identity of this end's receive queue (for Yield).
+func (c *Conn) ReadObj() uintptr { return c.r.id() }
+
+// ReadFrameOr is ReadFrame that also returns (nil, nil) once stop() holds
+// and no complete frame is available.
+func (c *Conn) ReadFrameOr(stop func() bool) ([]byte, error) {
+	d := c.r
+	full := func() bool {
+		if len(d.buf) < 4 {
+			return false
+		}
+		n := int(binary.LittleEndian.Uint32(d.buf))
+		return n >= 4 && len(d.buf) >= n
+	}
+	vsched.WaitFor("conn.ReadFrameOr:"+c.Name, d.id(), func() bool { return full() || d.wclosed || d.rclosed || stop() })
+	if full() {
+		n := int(binary.LittleEndian.Uint32(d.buf))
+		f := append([]byte(nil), d.buf[:n]...)
+		d.buf = d.buf[n:]
+		return f, nil
+	}
+	if d.rclosed {
+		return nil, io.ErrClosedPipe
+	}
+	if d.wclosed {
+		return nil, io.EOF
+	}
+	return nil, nil
 }
 
 // TryFrames pops all complete frames currently readable without blocking
